@@ -7,6 +7,7 @@
 //! redirected by build.rs): 2-3 voter threads x 1-3 operations, every interleaving and every
 //! permitted reordering within the preemption bound.
 
+mod ht;
 mod wt;
 
 mod loom_waker {
@@ -715,7 +716,11 @@ fn main() {
     asys::world::set_checker(asys::oracle::check_c17_system);
     if let Some(r) = ctx.replay_request() {
         let d = &r["detail"];
-        if r["leg"].as_str().unwrap_or("").starts_with("wt-") {
+        if r["leg"].as_str() == Some("ht-votes") {
+            for (sig, det) in ht::replay(d) {
+                ctx.violation("replay", &sig, det);
+            }
+        } else if r["leg"].as_str().unwrap_or("").starts_with("wt-") {
             wt::replay(&ctx, &r);
         } else if r["leg"].as_str().unwrap_or("").starts_with("dl-") {
             c07::timeouts_replay(&ctx, &r);
@@ -745,6 +750,7 @@ fn main() {
     as_timeouts_leg(&ctx);
     c07::run_timeouts_leg(&ctx);
     wt::run_leg(&ctx);
+    ht::run(&ctx);
     ctx.assume("system legs: the clock moves by scripted partial advances (agent runtime: also while the runtime has work pending, i.e. it was not scheduled for a while; downlink runtime: only while it has nothing to do) and by full ticks at quiescence");
     ctx.assume("loom models the C11 memory orderings of the AtomicU8; the AtomicWaker of the futures crate is replaced by a mutex-protected waker cell (its register/wake contract, not its implementation)");
     ctx.assume("Voter is !Sync: each voter is used by one thread (Cell<bool> stays a plain cell)");
